@@ -11,6 +11,7 @@ import Pyunicorn.Lemmas.RelabelR5
 import Pyunicorn.Lemmas.RelabelRec5
 import Pyunicorn.Lemmas.RelabelW5
 import Pyunicorn.Lemmas.RelabelBetw5
+import Pyunicorn.Lemmas.RelabelBetw5b
 import Mathlib.Algebra.BigOperators.Group.List.Basic
 import Mathlib.Data.List.Nodup
 /-!
@@ -476,7 +477,12 @@ contribution to the definition (hypothesis of C03's `nsiBetweenness_eq_def_parti
 over targets and the wrapper are proved there for all inputs).  Missing: that obligation itself; the
 sweeps visit the nodes in an order that depends on the numbering, so a direct proof needs the
 order-independence of the queue discipline.  The hypotheses are checked on every generated case by
-the `betw` correspondence (kernel model == definition == implementation on both numberings). -/
+the `betw` correspondence (kernel model == definition == implementation on both numberings).
+
+**Round 5b: the full statement is now proved as `net_betweenness_kernel_relabel` below** — C03 has
+discharged the obligation (`NetBetw.sweepDiff_eq_contribDef`, for every undirected network, positive
+node weights and targets `< N`).  This theorem is kept under its old name: it is the step that needs
+nothing about the network beyond the two hypotheses. -/
 theorem net_betweenness_kernel_relabel_partial (h : IsPerm n idx) (a : Adj) (w : Nat → Rat)
     (isSrc : List Bool) (targets : List Nat) (ht : ∀ k ∈ targets, k < n)
     (hk : ∀ j, j ∈ targets → ∀ l, l < n →
@@ -489,6 +495,72 @@ theorem net_betweenness_kernel_relabel_partial (h : IsPerm n idx) (a : Adj) (w :
         (nodes n idx targets)
       = nodeList n idx 0 (NetBetw.nsiBetweenness n a w isSrc targets) :=
   nsiBetweenness_relabel_of_sweeps h a w isSrc targets ht hk hk'
+
+/-- **shortest-path / interregional / n.s.i. betweenness, the compiled kernel — full statement**
+(round 5b; was `net_betweenness_kernel_relabel_partial`).  For **every** undirected network
+(symmetric `A`), positive node weights, every source mask and every target list with entries `< N` —
+the three things the real code enforces (`Network` symmetrises undirected input, node weights are
+positive by contract, `targets` index an array of length `N`) — C03's kernel model of
+`_nsi_betweenness` (`NetBetw.nsiBetweenness`: flattened neighbour lists, Brandes-type forward sweep
+with a queue in discovery order — an order that depends on the numbering —, backward sweep over the
+reversed queue, accumulation over the targets in list order, division by `w`) run on the renumbered
+network with `w[idx]`, `isSrc[idx]` and the target list renumbered through the inverse permutation
+returns the renumbered array; entry `v` of the new result is entry `idx v` of the old one; and on the
+renumbered input the kernel still computes the definition.  No per-case hypothesis: `sweepDiff =
+contribDef` is C03's `NetBetw.sweepDiff_eq_contribDef`, applied to both numberings (the renumbered
+network is again symmetric, the renumbered weights positive, the renumbered targets `< N`). -/
+theorem net_betweenness_kernel_relabel (h : IsPerm n idx) (a : Adj) (hsym : ∀ x y, a x y = a y x)
+    (w : Nat → Rat) (hw : ∀ v, v < n → 0 < w v) (isSrc : List Bool) (targets : List Nat)
+    (ht : ∀ k ∈ targets, k < n) :
+    NetBetw.nsiBetweenness n (mat a idx) (vec w idx) (nodeList n idx false isSrc)
+        (nodes n idx targets)
+      = nodeList n idx 0 (NetBetw.nsiBetweenness n a w isSrc targets) ∧
+    (∀ v, v < n →
+      (NetBetw.nsiBetweenness n (mat a idx) (vec w idx) (nodeList n idx false isSrc)
+          (nodes n idx targets)).getD v 0
+        = (NetBetw.nsiBetweenness n a w isSrc targets).getD (idx v) 0) ∧
+    NetBetw.nsiBetweenness n (mat a idx) (vec w idx) (nodeList n idx false isSrc)
+        (nodes n idx targets)
+      = NetBetw.nsiBetweennessDef n (mat a idx) (vec w idx) (dist n (mat a idx))
+          (nodeList n idx false isSrc) (nodes n idx targets) := by
+  refine ⟨nsiBetweenness_relabel h a hsym w hw isSrc targets ht, fun v hv => ?_,
+    NetBetw.nsiBetweenness_eq_def_full n (mat a idx) (mat_symm a hsym idx) (vec w idx)
+      (vec_pos h w hw) _ _ (nodes_lt h targets ht)⟩
+  rw [nsiBetweenness_relabel h a hsym w hw isSrc targets ht, nodeList_getD n idx 0 _ v hv]
+
+/-- **the kernel does not depend on the order of the target list** (round 5b): the loop
+`for j in targets` accumulates into `betweenness_times_w` in list order; for every undirected network
+with positive node weights two target lists that are rearrangements of each other give the same
+array.  This is what makes the *default* `targets=None` numbering independent: the renumbered network
+is called with `np.arange(N)` again, which is not the old default renumbered but a rearrangement of it
+(`nodes_range_perm`). -/
+theorem net_betweenness_target_order (a : Adj) (hsym : ∀ x y, a x y = a y x) (w : Nat → Rat)
+    (hw : ∀ v, v < n → 0 < w v) (isSrc : List Bool) (T T' : List Nat) (hp : T.Perm T')
+    (hT : ∀ k ∈ T, k < n) :
+    NetBetw.nsiBetweenness n a w isSrc T = NetBetw.nsiBetweenness n a w isSrc T' :=
+  nsiBetweenness_targets_perm a hsym w hw isSrc hp hT
+
+/-- **the public methods `Network.nsi_betweenness(sources, targets, nsi)` and
+`interregional_betweenness(sources, targets)`** (round 5b; C03's `apiBetweenness`: source mask
+`is_source[sources] = 1` or all ones for `sources=None`, `targets=None` → `np.arange(N)`, unit
+weights for `nsi=False`, then the kernel): on the renumbered undirected network with node weights
+`w[idx]`, called with the node lists renumbered through the inverse permutation — or with the
+defaults, `Option.map` leaves `none` alone — they return the renumbered array.
+`interregional_betweenness` needs no hypothesis on the node weights (it replaces them by ones). -/
+theorem net_betweenness_api_relabel (h : IsPerm n idx) (a : Adj) (hsym : ∀ x y, a x y = a y x)
+    (nodeW : Nat → Rat) (S T : Option (List Nat))
+    (hS : ∀ L, S = some L → ∀ s ∈ L, s < n) (hT : ∀ L, T = some L → ∀ t ∈ L, t < n) :
+    (∀ nsi : Bool, (∀ v, v < n → 0 < nodeW v) →
+      NetBetw.apiBetweenness n (mat a idx) (vec nodeW idx) (S.map (nodes n idx))
+          (T.map (nodes n idx)) nsi
+        = nodeList n idx 0 (NetBetw.apiBetweenness n a nodeW S T nsi)) ∧
+    NetBetw.interregionalBetweenness n (mat a idx) (vec nodeW idx) (S.map (nodes n idx))
+        (T.map (nodes n idx))
+      = nodeList n idx 0 (NetBetw.interregionalBetweenness n a nodeW S T) ∧
+    NetBetw.srcMaskOf n (S.map (nodes n idx)) = nodeList n idx false (NetBetw.srcMaskOf n S) := by
+  refine ⟨fun nsi hw => apiBetweenness_relabel h a hsym nodeW hw S T hS hT nsi, ?_,
+    srcMaskOf_relabel h S hS⟩
+  exact apiBetweenness_relabel h a hsym (fun _ => 1) (fun _ _ => by decide) S T hS hT false
 
 /-! ## C11 model: cross / internal measures, node lists renumbered with the network -/
 open Pyunicorn.Cross
@@ -954,6 +1026,34 @@ example : NetBetw.nsiBetweennessDef 4 exAdj (fun _ => 1) (dist 4 exAdj) [true, t
     NetBetw.nsiBetweenness 4 exAdj (fun _ => 1) [true, true, true, true] [0, 1, 2, 3] = [0, 2, 0, 0] := by
   decide +kernel
 example : nodes 4 exPerm [0, 3] = [1, 2] ∧ (nodes 4 exPerm [0, 3]).map exPerm = [0, 3] := by
+  decide +kernel
+/-- round 5b: the hypotheses of `net_betweenness_kernel_relabel` / `net_betweenness_api_relabel` hold
+for the path 0 — 1 — 2 (+ isolated 3) with node weights 1, 2, 3, 4, and the kernel model's result is
+not trivial: with all sources and the default targets the middle node has n.s.i. betweenness 3
+(the others 0), and it is node 3 after renumbering; with `sources=[0]`, `targets=[2]` — renumbered
+to `[1]`, `[0]` — it has 3/2.  The default target list of the renumbered network, `range 4`, is not
+the old default renumbered (`[1, 3, 0, 2]`). -/
+def exW4 : Nat → Rat := fun v => [1, 2, 3, 4].getD v 1
+example : (∀ x y, exAdj x y = exAdj y x) ∧ (∀ v, v < 4 → 0 < exW4 v) := by
+  refine ⟨fun x y => ?_, fun v hv => by unfold exW4; interval_cases v <;> norm_num⟩
+  unfold exAdj
+  simp only [List.mem_cons, Prod.mk.injEq, List.not_mem_nil, or_false, decide_eq_decide]
+  omega
+example :
+    NetBetw.apiBetweenness 4 exAdj exW4 none none true
+      = [0, 3, 0, 0] ∧
+    NetBetw.apiBetweenness 4 (mat exAdj exPerm) (vec exW4 exPerm)
+        (Option.map (nodes 4 exPerm) none) (Option.map (nodes 4 exPerm) none) true
+      = [0, 0, 0, 3] ∧
+    NetBetw.apiBetweenness 4 exAdj exW4 (some [0]) (some [2]) true
+      ≠ NetBetw.apiBetweenness 4 exAdj exW4 none none true ∧
+    NetBetw.apiBetweenness 4 (mat exAdj exPerm) (vec exW4 exPerm)
+        (Option.map (nodes 4 exPerm) (some [0])) (Option.map (nodes 4 exPerm) (some [2])) true
+      = nodeList 4 exPerm 0
+          (NetBetw.apiBetweenness 4 exAdj exW4 (some [0]) (some [2]) true) ∧
+    NetBetw.apiBetweenness 4 exAdj exW4 (some [0]) (some [2]) true = [0, 3 / 2, 0, 0] ∧
+    NetBetw.interregionalBetweenness 4 (mat exAdj exPerm) (fun _ => 7) none none = [0, 0, 0, 2] ∧
+    nodes 4 exPerm (List.range 4) = [1, 3, 0, 2] := by
   decide +kernel
 /-- links of the path 0 — 1 — 2 listed in two different orders / orientations -/
 def exNetA : Repr.Net := { Repr.Net.blank false 3 with graph := [(0, 1), (1, 2)] }
